@@ -11,6 +11,7 @@ MCBin == {"bin1", "bin2"}
 MCCats == {"binary", "debug", "source"}
 MCOkForms == {"canon", "rpm", "dir", "dirrpm"}
 MCOkPaths == {"rel1", "rel2"}
+MCLower(sig) == IF sig = "mixed" THEN "mixedlower" ELSE sig
 Vs     == {"V1", "V2"}
 As     == MCBin \cup {"src", "nosrc", "unknown"}
 Forms  == IF Wide THEN MCOkForms \cup {"noepoch", "unparsable", "colonjunk"} ELSE {"canon", "dirrpm", "noepoch", "unparsable"}
